@@ -3,7 +3,7 @@
 # Confirms in a scratch worktree of /repo HEAD: (a) suite passes with patch, (b) demo fails with patch,
 # (c) demo passes without; then stores the seed under /verif/seeded/<dest-id>/ and removes the worktree.
 set -u
-export GOFLAGS=-mod=mod GOPROXY=off GOSUMDB=off GOTOOLCHAIN=local; unset GOWORK
+export GOFLAGS="-mod=mod -trimpath" GOPROXY=off GOSUMDB=off GOTOOLCHAIN=local; unset GOWORK
 sd=$1; pkg=$2; id=$3; prop=$4
 wt=$(mktemp -d /tmp/confirm.XXXXXX); rmdir $wt
 git -C /repo worktree add -q --detach $wt HEAD || exit 2
